@@ -37,19 +37,24 @@ CHECKS = {
         design="DESIGN.md §6 C03"),
     "C04": dict(
         technique="Lean 4 proof (expression tensor layout, descriptor model) + correspondence + differential oracle",
-        text=("expr_layout(_inj), expr_descriptor, orig_positions, expr_num_constants are proved for any sizes; descriptor fields of real expressions (IR, generated C, cffi read-back) are "
+        text=("expr_store_slot(_rank0) + exprStores_sound: every store into A of every exported expression AST is decided to be A[MultiIndex([iq, component, dof], [P, C, D])] (exprStoresB), which the theorems map to the slot of expr_layout; "
+              "expr_layout(_inj), expr_descriptor, orig_positions, expr_num_constants are proved for any sizes; descriptor fields of real expressions (IR, generated C, cffi read-back) are "
               "compared with the model; every expression kernel of the corpus is compared with the pointwise oracle for every local facet."),
         design="DESIGN.md §6 C04"),
     "C05": dict(
-        technique="Lean 4 proof (noninterference: unread_irrelevant, reads_data_independent; block tiling) + read sets of every kernel + NaN poisoning",
-        text=("For kernels that only read w (decidable readOnly), a run whose recorded reads of w avoid a set D is unaffected by ANY change of w inside D, and the read list is independent "
-              "of scalar data (theorems); the driver computes the read sets of w and c for every kernel over all entity/permutation tuples and compares them with the blocks computed from UFL and "
-              "with enabled_coefficients; layout prefix sums are proved to tile and are compared with the real IR."),
+        technique="Lean 4 proof (noninterference: unread_irrelevant, reads_data_independent; composition with the packing contract: disabled_irrelevant, reads_in_blocks; block tiling) + decidable certificates readOnly / readsAvoidB / readsInBlocksB evaluated per kernel and (entity, permutation) tuple + NaN poisoning + packing oracle",
+        text=("For kernels that only read w (decidable readOnly, evaluated on every kernel for w, c, coordinate_dofs, entity_local_index, quadrature_permutation), a run whose recorded reads of w avoid a set D is unaffected by ANY change of w inside D, "
+              "and the read list is independent of scalar data (unread_irrelevant, reads_data_independent); disabled_irrelevant composes this with the packing contract: if the reads of w avoid the blocks of the coefficients whose enabled_coefficients "
+              "flag is false (decidable readsAvoidB) the result does not depend on the values stored for those coefficients, for all data; reads_in_blocks attributes every read of w to exactly one coefficient block. The driver evaluates readsAvoidB / "
+              "readsInBlocksB for every (entity, permutation) tuple up to 300 (quick) / 1000 (thorough) tuples per kernel (above the cap: all tuples at the extreme values of either argument plus a seeded sample), with blocks computed from UFL and flags from the IR; "
+              "kernels that declare integer arrays are outside the LNodes model and are counted, not checked; layout prefix sums are proved to tile and are compared with the real IR; coeffAccess is compared with the index expressions the real "
+              "symbols.coefficient_dof_access(_blocked) build; selected forms are compared with the independent oracle, which reads w and c at the positions the contract defines."),
         design="DESIGN.md §6 C05"),
     "C06": dict(
         technique="Lean 4 proof (argsort as a relation, offsets, id expansion) + correspondence on real and synthetic FormIRs + descriptor read-back + summation search",
-        text=("ids_sorted, triples_preserved, offsets_delimit, kernels_of_type, dispatch, expand_ids, minus_one_only_otherwise, enum_order hold for every id/domain list; the model is compared "
-              "with integral_data/_compute_form_ir on real and synthetic inputs; compiled descriptors are read back and kernels summed per (type,id)."),
+        text=("ids_sorted, triples_preserved, offsets_delimit, kernels_of_type, dispatch (a permutation of the declared (id, name, domain) triples), expand_ids, minus_one_only_otherwise, otherwise_not_folded, formIR_ids_in_range, "
+              "formIR_rejects_large, enum_order hold for every id/domain list; the model is compared with integral_data/_compute_form_ir on real and synthetic inputs (ids around ±2³¹ included); the emitted form_integrals / form_integral_ids / "
+              "form_integral_offsets initialisers of the real C generator and the compiled tables are compared with the model's emit*; compiled descriptors are read back and kernels summed per (type,id), incl. several kernels per id and `otherwise` next to explicit ids."),
         design="DESIGN.md §6 C06"),
     "C07": dict(
         technique="Lean 4 proof (relational frame theorems over the LNodes semantics) + proved static certificate per kernel + differential C runs",
